@@ -525,6 +525,64 @@ func (s *c16State) expr(x ast.Expr, ctx c16Ctx) {
 	}
 }
 
+// shorthand: the ES2015 shorthand `{a}` is written when the `name:` prefix is skipped because the value is a variable of the
+// same name, i.e. by an `if` whose condition asks `<x>.<Name|Key>.IsIdent(…)` (method IsIdent of parse/v2/js.PropertyName).
+// Recorded: the struct the property name belongs to (js.Property: an object literal; js.BindingObjectItem: a destructuring
+// pattern, which is ES2015 syntax of the input already) and whether that condition consults a gate atom.
+func (s *c16State) shorthand(cond ast.Expr) {
+	info := s.p.TypesInfo
+	owner := ""
+	ast.Inspect(cond, func(n ast.Node) bool {
+		call, ok := n.(*ast.CallExpr)
+		if !ok {
+			return true
+		}
+		fn := calleeOf(info, call)
+		if fn == nil || fn.Name() != "IsIdent" || fn.Pkg() == nil || fn.Pkg().Path() != "github.com/tdewolff/parse/v2/js" {
+			return true
+		}
+		owner = "?"
+		if sel, ok := unparen(call.Fun).(*ast.SelectorExpr); ok {
+			if inner, ok := unparen(sel.X).(*ast.SelectorExpr); ok {
+				if fs, ok := info.Selections[inner]; ok && fs.Kind() == types.FieldVal {
+					rt := fs.Recv()
+					if pt, ok := rt.Underlying().(*types.Pointer); ok {
+						rt = pt.Elem()
+					}
+					owner = types.TypeString(rt, func(p *types.Package) string { return p.Name() })
+				}
+			}
+		}
+		return true
+	})
+	if owner == "" {
+		return
+	}
+	var gates []int64
+	var find func(x ast.Expr)
+	find = func(x ast.Expr) {
+		x = unparen(x)
+		if a, ok := s.atom(x); ok && !a.flag {
+			gates = append(gates, a.n)
+			return
+		}
+		switch v := x.(type) {
+		case *ast.BinaryExpr:
+			find(v.X)
+			find(v.Y)
+		case *ast.UnaryExpr:
+			find(v.X)
+		}
+	}
+	find(cond)
+	label := "no gate"
+	if len(gates) > 0 {
+		sort.Slice(gates, func(i, j int) bool { return gates[i] < gates[j] })
+		label = fmt.Sprintf("condition consults gate %d", gates[len(gates)-1])
+	}
+	s.producers["property shorthand of "+owner+": "+label] = true
+}
+
 func c16Terminates(list []ast.Stmt) bool {
 	if len(list) == 0 {
 		return false
@@ -610,6 +668,7 @@ func (s *c16State) stmt(st ast.Stmt, ctx c16Ctx) c16Ctx {
 		if v.Init != nil {
 			inner = s.stmt(v.Init, ctx)
 		}
+		s.shorthand(v.Cond)
 		s.expr(v.Cond, inner)
 		s.block(v.Body.List, inner.with(s.holds(v.Cond, true)))
 		elseCtx := inner.with(s.holds(v.Cond, false))
@@ -767,6 +826,99 @@ func init() {
 		fmt.Fprintf(&b, "/-- the distinct versions tested by gate atoms -/\ndef gateVersions : List Nat := [%s]\n\n", strings.Join(vtxt, ", "))
 		fmt.Fprintf(&b, "/-- `kind: gated N | input-flag Optional | UNGATED in f` for every producer of newer syntax (a set: sorted, no duplicates) -/\ndef producers : List String := %s\n", leanStrList(prods))
 		b.WriteString(footer("JsVersionGates"))
+		return b.String(), nil
+	})
+}
+
+// option reads: every place where a field of a Minifier option struct is read in the six minifier packages, with the
+// enclosing function and the innermost context (the call it is an argument of, the `if` condition it occurs in, or the
+// assignment it feeds) — so that a new consumer of an option, or an option check that disappears, changes the
+// regenerated list (`option_sites_ok`).
+func init() {
+	gen("OptionSites", func(r *Repo) (string, error) {
+		fields := map[string]bool{"KeepComments": true, "KeepConditionalComments": true, "KeepSpecialComments": true,
+			"KeepDefaultAttrVals": true, "KeepDocumentTags": true, "KeepEndTags": true, "KeepQuotes": true, "KeepWhitespace": true,
+			"TemplateDelims": true, "KeepCSS2": true, "Precision": true, "newPrecision": true, "Inline": true, "KeepVarNames": true,
+			"useAlphabetVarNames": true, "Version": true, "KeepNumbers": true}
+		var sites []string
+		for _, pkg := range []string{"css", "html", "js", "json", "svg", "xml"} {
+			fs, err := r.Files(pkg)
+			if err != nil {
+				return "", err
+			}
+			for _, f := range fs {
+				for _, d := range f.Decls {
+					fd, ok := d.(*ast.FuncDecl)
+					if !ok || fd.Body == nil {
+						continue
+					}
+					fn := funcName(fd)
+					var stack []ast.Node
+					ast.Inspect(fd.Body, func(n ast.Node) bool {
+						if n == nil {
+							stack = stack[:len(stack)-1]
+							return true
+						}
+						stack = append(stack, n)
+						sel, ok := n.(*ast.SelectorExpr)
+						if !ok || !fields[sel.Sel.Name] {
+							return true
+						}
+						recv := exprText(r.Fset, sel.X)
+						if recv != "o" && !strings.HasSuffix(recv, ".o") && recv != "tmp" {
+							return true
+						}
+						ctx := "expr"
+						for i := len(stack) - 2; i >= 0; i-- {
+							switch t := stack[i].(type) {
+							case *ast.CallExpr:
+								isArg := false
+								for _, a := range t.Args {
+									if a.Pos() <= sel.Pos() && sel.End() <= a.End() {
+										isArg = true
+									}
+								}
+								if isArg {
+									ctx = "arg of " + exprText(r.Fset, t.Fun)
+								}
+							case *ast.IfStmt:
+								if t.Cond.Pos() <= sel.Pos() && sel.End() <= t.Cond.End() {
+									c := exprText(r.Fset, t.Cond)
+									if len(c) > 60 {
+										c = c[:60] + ".."
+									}
+									ctx = "if " + c
+								}
+							case *ast.AssignStmt:
+								onLeft := false
+								for _, l := range t.Lhs {
+									if l.Pos() <= sel.Pos() && sel.End() <= l.End() {
+										onLeft = true
+									}
+								}
+								if onLeft {
+									ctx = "WRITE"
+								} else {
+									ctx = "assigned to " + exprText(r.Fset, t.Lhs[0])
+								}
+							case *ast.ReturnStmt:
+								ctx = "returned"
+							}
+							if ctx != "expr" {
+								break
+							}
+						}
+						sites = append(sites, fmt.Sprintf("%s.%s: %s %s", pkg, fn, sel.Sel.Name, ctx))
+						return true
+					})
+				}
+			}
+		}
+		sort.Strings(sites)
+		var b strings.Builder
+		b.WriteString(header("OptionSites", "/repo/{css,html,js,json,svg,xml} (every read or write of an option field)"))
+		fmt.Fprintf(&b, "def sites : List String := %s\n", leanStrList(sites))
+		b.WriteString(footer("OptionSites"))
 		return b.String(), nil
 	})
 }
